@@ -155,8 +155,10 @@ func (s *Stream) ReassembledSG(sg reassembly.ScatterGather, ac reassembly.Assemb
 		if pmd.PcapInfo != pmd2.PcapInfo || pmd.Index != pmd2.Index {
 			continue
 		}
+		// the bytes returned by Fetch may point into a page of the assembler
+		// which is reused for other packets after this call, keep a copy
 		s.Data = append(s.Data, StreamData{
-			Bytes:       sg.Fetch(length),
+			Bytes:       append([]byte(nil), sg.Fetch(length)...),
 			PacketIndex: uint64(i),
 		})
 		return
